@@ -394,6 +394,14 @@ func genC02(t *rapid.T) c02Case {
 				if p := genKnownPrefix(t); len(p) > 1 {
 					prefix = p[:rapid.IntRange(1, len(p)-1).Draw(t, "cut")]
 				}
+			case 2: // a separator in front of or inside the "prefix" the checksum was computed for
+				prefix = rapid.SampledFrom([]string{":", ":abc", "a:b", "::", genKnownPrefix(t) + ":", ":" + genKnownPrefix(t)}).Draw(t, "colonprefix")
+				body := refCashEncodeSymbols(prefix, genCashSymbols(t))
+				s := prefix + ":" + body
+				if rapid.Bool().Draw(t, "dropfirst") {
+					s = s[1:]
+				}
+				return c02Case{S: s, Class: "A"}
 			}
 		} else {
 			prefix = genKnownPrefix(t)
